@@ -150,6 +150,14 @@ class Ref:
             l[:] = [x for x in l if x not in o] + _uniq([x for x in o if x not in l])
         elif k == "self" and op[1] in ("dupdate", "sdupdate"):
             del l[:]
+        elif k == "selfmix":
+            others = [list(l) if o is None else o[1] for o in op[2]]
+            if op[1] == "update":
+                l[:] = _uniq(l + [x for o in others for x in o])
+            elif op[1] == "iupdate":
+                l[:] = [x for x in l if all(x in o for o in others)]
+            elif op[1] == "dupdate":
+                l[:] = [x for x in l if not any(x in o for o in others)]
 
 
 def _operand(rng, ref, univ, kinds=OPD_KINDS, maxlen=7):
@@ -240,6 +248,13 @@ SELF_KINDS = ["update", "iupdate", "dupdate", "sdupdate", "union", "inter", "dif
 
 
 def _setop(rng, ref, univ, sortable):
+    if rng.random() < 0.06:
+        # several operands, some of them the set itself
+        k = rng.choice(["update", "iupdate", "dupdate", "union", "inter", "diff"])
+        os_ = [_operand(rng, ref, univ) for _ in range(rng.choice([1, 1, 2]))]
+        for _ in range(rng.choice([1, 1, 2])):
+            os_.insert(rng.randrange(len(os_) + 1), None)
+        return ["selfmix", k, os_]
     if rng.random() < 0.10:
         # the operand is the set itself
         k = rng.choice(SELF_KINDS)
@@ -869,6 +884,14 @@ def _run_history(case, IndexedSet):
                 o = _mk_operand(IndexedSet, T, op[2][0], op[2][1])
                 operands.append(o)
                 orders.append(tl(o))
+            elif k == "selfmix":
+                for od in op[2]:
+                    if od is None:
+                        orders.append(None)
+                    else:
+                        o = _mk_operand(IndexedSet, T, od[0], od[1])
+                        operands.append(o)
+                        orders.append(tl(o))
             elif k in ("sdupdate", "symdiff", "rsub", "issubset", "issuperset", "isdisjoint"):
                 o = _mk_operand(IndexedSet, T, op[1][0], op[1][1])
                 operands.append(o)
@@ -989,6 +1012,23 @@ def _run_history(case, IndexedSet):
                     ret = ["bool", s.issuperset(s)]
                 elif sk == "isdisjoint":
                     ret = ["bool", s.isdisjoint(s)]
+                else:
+                    raise AssertionError(op)
+            elif k == "selfmix":
+                it = iter(operands)
+                args = [s if od is None else next(it) for od in op[2]]
+                if op[1] == "update":
+                    s.update(*args)
+                elif op[1] == "iupdate":
+                    s.intersection_update(*args)
+                elif op[1] == "dupdate":
+                    s.difference_update(*args)
+                elif op[1] == "union":
+                    ret = newset(s.union(*args))
+                elif op[1] == "inter":
+                    ret = newset(s.intersection(*args))
+                elif op[1] == "diff":
+                    ret = newset(s.difference(*args))
                 else:
                     raise AssertionError(op)
             elif k == "cmp":
@@ -1126,6 +1166,12 @@ def _op(op, orders):
     if k in single:
         assert len(orders) == 1
         return "%s %s" % (single[k], _opd(op[1][0], orders[0]))
+    if k == "selfmix":
+        assert len(orders) == len(op[2])
+        return "SelfMix %s %s" % (
+            {"update": "MUpdate", "iupdate": "MIntersectionUpdate", "dupdate": "MDifferenceUpdate", "union": "MUnion",
+             "inter": "MIntersection", "diff": "MDifference"}[op[1]],
+            clist("None" if od is None else "(Some %s)" % _opd(od[0], order) for od, order in zip(op[2], orders)))
     if k == "cmp":
         assert len(orders) == 1
         return "Cmp %s %s" % ({"eq": "CEq", "ne": "CNe", "le": "CLe", "lt": "CLt", "ge": "CGe", "gt": "CGt"}[op[1]],
@@ -1268,7 +1314,7 @@ def nontrivial(case, obs):
             tomb = True
         if k == "pop" and op[1] is not None and n and -n <= op[1] < n and op[1] % n < n - 1:
             tomb = True
-        if k in ("iupdate", "dupdate", "sdupdate"):
+        if k in ("iupdate", "dupdate", "sdupdate") or (k == "selfmix" and op[1] in ("iupdate", "dupdate")):
             tomb = True
         if k in ("clear", "sort", "reverse"):
             tomb = False
@@ -1285,7 +1331,7 @@ def distribution(d, case, obs):
     kinds = d.setdefault("operand_kinds", {})
     arity = d.setdefault("operand_arity", {})
     for op in case["ops"]:
-        name = op[0] + (":" + op[1] if op[0] in ("self", "cmp") else "") + \
+        name = op[0] + (":" + op[1] if op[0] in ("self", "cmp", "selfmix") else "") + \
             (":" + op[2] if len(op) > 2 and isinstance(op[2], str) and op[2] != "method" else "")
         ops[name] = ops.get(name, 0) + 1
         if op[0] in ("update", "iupdate", "dupdate", "union", "inter", "diff"):
